@@ -336,7 +336,9 @@ def mc_cfg(c, maxlevel, empty=False, drops=False, fails=False, view=True, invs=(
 def run_mc(chk, name, c, maxlevel, expect_error=None, dump=None, timeout=1500, **kw):
     defs, consts, lines = mc_cfg(c, maxlevel, **kw)
     files, cfg = tlc.mc_wrapper("MCgen_rc_" + name, "RouteCache", defs, lines, consts)
-    res = tlc.run_tlc("MCgen_rc_" + name, cfg_text=cfg, files=files, timeout=timeout, dump_dot=dump, name="RouteCache/" + name)
+    # graph dumps with one worker: the level bound then cuts at the same states on every run (reproducible walks)
+    res = tlc.run_tlc("MCgen_rc_" + name, cfg_text=cfg, files=files, timeout=timeout, dump_dot=dump, name="RouteCache/" + name,
+                      workers=1 if dump else None)
     if expect_error is None:
         chk.tlc(res)
         if res["error_kind"]:
@@ -704,12 +706,17 @@ def main(tier, seed):
         "the probe packets park in pending_nets when no route is known; the harness clears pending_nets after each probe round",
         "node level: deletions and the router-wide status have no network message in this stack (handlers are empty): they are "
         "invoked through NetworkServiceAccessPoint.delete_router_references / the node's cache object",
-        "TLC exhaustive up to the stated level bound only; longer histories by trace validation of random runs"]
+        "quick tier: the 2 x 3 x 4 universe is explored to a level bound (TLCGet(\"level\"); with several workers TLC's search is "
+        "not strictly level-synchronous, a few states of the last level may stay unexpanded); the thorough tier closes that "
+        "universe without a bound and adds Apalache's inductive check of Coherent"]
 
     # ---- D: the design satisfies the property -------------------------------------------------------------------
-    # full: the property's quantifier -- 2 source networks x 3 routers x 4 destinations, every argument set, all histories
-    # of 5 operations (quick: of 3); deep: a smaller universe to depth 7 (closes: every state of that universe is reached)
-    run_mc(chk, "full", dict(FULL) if thorough else dict(FULL, att=[[1], [1, 2]]), 5 if thorough else 3)
+    # full: the property's quantifier -- 2 source networks x 3 routers x 4 destinations, every argument set.  thorough: no
+    # effective level bound, TLC closes the universe (every reachable state, every transition out of it = histories of any
+    # length, which includes "up to length 5"); quick: histories of 3 operations.
+    # deep: a smaller universe, closed in both tiers.
+    res = run_mc(chk, "full", dict(FULL) if thorough else dict(FULL, att=[[1], [1, 2]]), 99 if thorough else 3)
+    chk.extra["full_universe_closed"] = bool(thorough and res["finished"] and (res["depth"] or 99) < 99)
     run_mc(chk, "deep", dict(snets=[1, 2], addrs=[1, 2], dnets=[1, 2, 3], statuses=[0], att=[[1], [1, 2]], upd=None, dels=None), 7)
     run_mc(chk, "status", dict(snets=[1, 2], addrs=[1, 2], dnets=[1, 2], statuses=[0, 1], att=[[1], [1, 2]], upd=None, dels=None),
            6 if thorough else 5)
